@@ -535,3 +535,62 @@ SPECIALISE_CASES = [
     ('g_lambda_args', [('c', 1), ('c', 7)]),
     ('g_rebound_param', [('c',), ('c', ['e'])]),
 ]
+SPECIALISE_CASES_2 = [
+    ('g_multi_return_assign', [(None,), (-3,), (-3, True), (0,), (7,), (700,)]),
+    ('g_multi_return_stmt', [(None,), (-1,), (5,)]),
+    ('g_call_in_condition', [(None,), (5,), (500,), (0.5,)]),
+    ('g_call_in_expression', [(-2,), (0,), (3,)]),
+]
+
+
+class Sorter:
+    def __init__(self):
+        self.log = []
+
+    def _classify(self, v, strict):
+        if v is None:
+            return 'none'
+        self.log.append(('seen', v))
+        if v < 0:
+            if strict:
+                return 'neg!'
+            return 'neg'
+        elif v == 0:
+            return 'zero'
+        self.log.append(('positive', v))
+        if v > 100:
+            return 'big'
+        return 'pos'
+
+    def _note(self, v):
+        if v is None:
+            return
+        if v < 0:
+            self.log.append(('note-neg', v))
+            return
+        self.log.append(('note', v))
+
+    def _is_big(self, v):
+        self.log.append(('is_big?', v))
+        return v is not None and v > 100
+
+    def g_multi_return_assign(self, v, strict=False):
+        kind = self._classify(v, strict)
+        self.log.append(('kind', kind))
+        return kind
+
+    def g_multi_return_stmt(self, v):
+        self._note(v)
+        self.log.append('done')
+        return len(self.log)
+
+    def g_call_in_condition(self, v):
+        if self._is_big(v):
+            return 'BIG'
+        elif v is not None and self._is_big(v * 1000):
+            return 'biggish'
+        return 'small'
+
+    def g_call_in_expression(self, v):
+        label = 'k=' + self._classify(v, False) + '.'
+        return [label, self._classify(v, True)]
